@@ -55,8 +55,9 @@ def edit(rng, text, kinds_wanted=None):
         lines = lines[:-1]
     kinds = line_kinds(lines)
     tags = set()
-    ops = kinds_wanted or rng.sample(["comment-eol", "comment-line", "blank", "spaces", "newline-style", "tab-indent", "final-newline", "trailing-space"],
+    ops = kinds_wanted or rng.sample(["comment-eol", "comment-line", "blank", "spaces", "newline-style", "tab-indent", "final-newline", "trailing-space", "leading-space"],
                                      rng.randint(1, 4))
+    margin = rng.choice([None, 1, 2, 3])        # the same run before every unindented line, or a run chosen line by line
     out = []
     for idx, (ln, k) in enumerate(zip(lines, kinds)):
         nxt = kinds[idx + 1] if idx + 1 < len(kinds) else None
@@ -72,6 +73,10 @@ def edit(rng, text, kinds_wanted=None):
             indent = "\t"
             tags.add("tab-indent")
         ln2 = indent + body
+        if "leading-space" in ops and not indent and body.strip() and not body.startswith(" ") and (margin or rng.random() < 0.5):
+            # 1-3 spaces between the line end before an UNINDENTED line and its first token (never next to an indentation)
+            ln2 = " " * (margin or rng.randint(1, 3)) + ln2
+            tags.add("leading-space")
         if "trailing-space" in ops and ln2.strip() and rng.random() < 0.4:
             ln2 += " " * rng.randint(1, 3)
             tags.add("trailing-space")
@@ -165,7 +170,7 @@ def cases(rng, quick, gr):
             base = g.script()
         except Exception:  # noqa: BLE001
             continue
-        for kind in ["comment-eol", "comment-line", "blank", "spaces", "newline-style", "tab-indent", "final-newline", "trailing-space"]:
+        for kind in ["comment-eol", "comment-line", "blank", "spaces", "newline-style", "tab-indent", "final-newline", "trailing-space", "leading-space"]:
             variant, tags = edit(rng, base, [kind])
 
             def pred(impl, a=base, b=variant, tags=tags):
